@@ -238,11 +238,11 @@ theorem iteF_LL : ∀ (f : Nat) (g u v : Int) (m : Mgr) (l : Option Nat), m.ctx 
     · rfl
 
 theorem iteRaw_nq (g u v : Int) (m : Mgr) (hc : m.ctx = false) : NQ m (iteRaw g u v m) := by
-  rw [iteRaw_eq]; exact iteF_nq _ g u v m hc
+  rw [dmp_iteRaw_eq]; exact iteF_nq _ g u v m hc
 
 theorem iteRaw_LL (g u v : Int) (m : Mgr) (l : Option Nat) (hc : m.ctx = false) :
     iteRaw g u v (m.withLL l) = llOut l (iteRaw g u v m) := by
-  rw [iteRaw_eq, iteRaw_eq]
+  rw [dmp_iteRaw_eq, dmp_iteRaw_eq]
   exact iteF_LL _ g u v m l hc
 
 /-! ### `add_var`, the first loop of `_load_pickle` -/
